@@ -11,7 +11,8 @@ def outputTable : List (String × Ops.OutputFn) := [
 
 /-- ops -/
 def opTable : List (String × (Json → R Json)) := [
-  ("run", Ops.opRun outputTable)
+  ("run", Ops.opRun outputTable),
+  ("parse", Ops.opParse)
 ]
 
 def dispatch (j : Json) : R Json := do
